@@ -242,7 +242,7 @@ def _spaced(p):
 
 
 # ---- random models for the C->S direction ------------------------------------------------------------------
-POOL_N = ["a", "b", "run", "get", "<init>", "value", "x1", "é", "中", "zz"]
+POOL_N = ["a", "b", "run", "get", "<init>", "value", "x1", "é", "中", "zz", "bc", "c", "cd", "d"]     # with classes La; Lab; Labc;: class + member names that concatenate alike
 POOL_T = ["I", "J", "Z", "D", "B", "Ljava/lang/String;", "[I", "[[J", "Lx/T;", "[Ljava/lang/Object;"]
 POOL_R = ["V", "I", "J", "Ljava/lang/String;", "[B"]
 
@@ -250,6 +250,8 @@ POOL_R = ["V", "I", "J", "Ljava/lang/String;", "[B"]
 def random_model_record(dex, rnd, max_classes):
     nc = rnd.randrange(0, max_classes + 1)
     cnames = ["Lp%d/C%d;" % (rnd.randrange(3), i) for i in range(nc)]
+    if nc >= 2 and rnd.random() < 0.4:      # a class name that is a prefix of another one (lookup keys built by concatenation must not confuse them)
+        cnames = ["La;", "Lab;", "Labc;", "Lp0/C9;"][:nc]
     classes, F, M = [], [], []
     protos = set()
     for cn in cnames:
@@ -264,7 +266,19 @@ def random_model_record(dex, rnd, max_classes):
             fl = (8 if st else 0) | rnd.choice([1, 2, 4, 0x10 | 1])
             (c["sfields"] if st else c["ifields"]).append((n, t, fl))
             F.append((cn, n, t, st, fl))
+        if cn in ("La;", "Lab;"):            # La;.bc and Lab;.c : same concatenation of class and member name, same type / prototype
+            n = "bc" if cn == "La;" else "c"
+            if (n, "I") not in seen:
+                c["sfields"].append((n, "I", 9))
+                F.append((cn, n, "I", True, 9))
         seen = set()
+        if cn in ("La;", "Lab;"):
+            n, p = ("bc" if cn == "La;" else "c"), ("V", ())
+            seen.add((n, p))
+            fl = 1 if cn == "La;" else 0x401
+            c["vmethods"].append(dict(name=n, ret="V", params=[], flags=fl, code=dict(regs=1, ins=1, outs=0, insns=[("return-void",)]) if cn == "La;" else None))
+            protos.add(p)
+            M.append((cn, n, p, False, cn == "La;", fl))
         for _ in range(rnd.randrange(0, 7)):
             n = rnd.choice(POOL_N)
             p = (rnd.choice(POOL_R), tuple(rnd.choice(POOL_T) for _ in range(rnd.randrange(0, 4))))
@@ -310,14 +324,14 @@ def random_model_record(dex, rnd, max_classes):
     for n in rnd.sample(POOL_N, 3):
         q.append(dict(k="mname", a=[ni[n]], r=mk(d.get_encoded_method("^" + re.escape(n) + "$"))))
         q.append(dict(k="fname", a=[ni[n]], r=fk(d.get_encoded_field("^" + re.escape(n) + "$"))))
-    for (c, n, p, dr, has, fl) in rnd.sample(M, min(3, len(M))):
+    for (c, n, p, dr, has, fl) in [x for x in M if x[0] in ("La;", "Lab;") and x[1] in ("bc", "c")] + rnd.sample(M, min(4, len(M))):
         got = d.get_encoded_method_descriptor(c, n, _spaced(p))
         q.append(dict(k="mdesc", a=[ci[c], ni[n], pis[p]], r=mk([got] if got is not None else [])))
     if M and cnames:
         c, n, p = rnd.choice(cnames), rnd.choice(POOL_N), rnd.choice(sorted(protos))
         got = d.get_encoded_method_descriptor(c, n, _spaced(p))
         q.append(dict(k="mdesc", a=[ci[c], ni[n], pis[p]], r=mk([got] if got is not None else [])))
-    for (c, n, t, st, fl) in rnd.sample(F, min(3, len(F))):
+    for (c, n, t, st, fl) in [x for x in F if x[0] in ("La;", "Lab;") and x[1] in ("bc", "c")] + rnd.sample(F, min(4, len(F))):
         got = d.get_encoded_field_descriptor(c, n, t)
         q.append(dict(k="fdesc", a=[ci[c], ni[n], tis[t]], r=fk([got] if got is not None else [])))
     rec["q"] = q
